@@ -43,6 +43,8 @@ def strategy_(draw, tier):
             where = c02.render(a)
     elif w == "files":
         where = "is_file = true"
+    if "ext" in keys and draw(st.sampled_from(range(3))) == 0:
+        where = "ext =~ '^[0-9]+$'"        # only extensions that look like numbers (1, 2, 10, 007): still a text key
     aggs = draw(c07.agg_list(w == "files"))
     # an aggregate may sit inside a scalar function (decodable wrappers only): the value must still be the group's
     for a in aggs:
@@ -248,12 +250,10 @@ def check(case):
                     return all((vals[i] >= vals[i + 1]) if o["desc"] else (vals[i] <= vals[i + 1]) for i in range(len(vals) - 1))
                 ok = sorted_under(seq)
                 if not is_int:
-                    # a text key whose values ALL look like integers may also be ordered numerically; a column that
-                    # mixes both kinds must still come out sorted under ONE order (text) - not a bit of each
+                    # a text key is ordered as text, as in a query without GROUP BY - also when its values look like numbers
                     digits = [x.strip().isdigit() for x in seq]
                     if seq and all(digits):
                         out.classes.append("order-by-text-key/all-numeric-looking")
-                        ok = ok or sorted_under([int(x) for x in seq])
                     elif any(digits):
                         out.classes.append("order-by-text-key/mixed-numeric-looking")
                 if not ok:
@@ -289,6 +289,8 @@ PINNED = [
     ("mixed-numeric-looking-keys", {"tree": {"f." + e: {"t": "f", "c": ""} for e in ["2", "10", "1x", "9", "9a", "100", "1", "a", "05", "5z", "50", "007", "7", "70", "7a"]},
                                     "keys": ["ext"], "where": None, "aggs": [_a("count", "*")], "sel": [["k", 0], ["a", 0]],
                                     "order": {"item": ["k", 0], "desc": False, "positional": False}}),
+    ("numeric-looking-names", {"tree": {n: {"t": "f", "c": ""} for n in ["1", "2", "9", "10", "100", "01"]}, "keys": ["name"], "where": "is_file = true",
+                               "aggs": [_a("count", "*")], "sel": [["k", 0], ["a", 0]], "order": {"item": ["k", 0], "desc": False, "positional": False}}),
     ("mixed-numeric-looking-keys-many", {"tree": {"h%d.%s" % (i, e): {"t": "f", "c": ""} for i in range(1, 41) for e in (str(i), "%dx" % i)},
                                          "keys": ["ext"], "where": None, "aggs": [_a("count", "*")], "sel": [["k", 0], ["a", 0]],
                                          "order": {"item": ["k", 0], "desc": True, "positional": True}}),
